@@ -723,7 +723,8 @@ class UnsetDefaultObserver(common.Suite):
                 if driver == "fb" and which == "default_restart":
                     continue
                 for when in ("before-first-run", "between-runs"):
-                    yield {"driver": driver, "which": which, "when": when, "seed": rng.randrange(1, 2**31)}
+                    for action in ("unset", "replace"):
+                        yield {"driver": driver, "which": which, "when": when, "action": action, "seed": rng.randrange(1, 2**31)}
 
     def real(self, case):
         E = env()
@@ -743,17 +744,23 @@ class UnsetDefaultObserver(common.Suite):
             if case["when"] == "between-runs":
                 sim.run(2)
             size0 = len(files[case["which"]].getvalue())
-            setattr(sim, case["which"], None)
+            fresh = io.StringIO()
+            # the default observer is set a second time (to nothing, or to another file): the old one is out of the game
+            setattr(sim, case["which"], None if case.get("action", "unset") == "unset" else fresh)
             sim.run(2)
         text = files[case["which"]].getvalue()
         others = {k: len(v.getvalue()) for k, v in files.items() if k != case["which"]}
         return {"grew": len(text) - size0, "size0": size0, "still_attached": case["which"] in sim.file_manager.observers,
-                "others": others}
+                "others": others, "fresh": len(fresh.getvalue()),
+                "fresh_first_line": fresh.getvalue().split("\n")[0][:40]}
 
     def oracle(self, case, obs):
         if "exception" in obs:
             return [("unset:exception:" + obs["exception"], obs.get("message", "") + obs.get("trace", "")[-300:])]
         out = []
+        if case.get("action") == "replace" and obs["fresh"] == 0:
+            out.append((f"unset:{case['which']}:replacement-never-written:{case['when']}",
+                        f"{case['driver']}: the observer set in place of the old one wrote nothing in 2 steps"))
         if obs["grew"] != 0:
             out.append((f"unset:{case['which']}:still-written:{case['when']}",
                         f"{case['driver']}: after `sim.{case['which']} = None` the file grew by {obs['grew']} bytes "
@@ -761,7 +768,7 @@ class UnsetDefaultObserver(common.Suite):
         return out
 
     def classify(self, case, obs):
-        return f"{case['driver']}:{case['which']}:{case['when']}"
+        return f"{case['driver']}:{case['which']}:{case['when']}:{case.get('action')}"
 
 
 def suites(tier):
